@@ -5,7 +5,7 @@ servers) on honest / forged / replayed transactions against the model instantiat
 recorded finite oracle tables; spec checker vm_computed on the real observations."""
 import json, os
 
-FILES = ["Base/Prelude.v", "Model/Auth.v", "Model/C02Check.v", "Proofs/Auth.v"]
+FILES = ["Base/Prelude.v", "Model/Auth.v", "Model/C02Check.v", "Model/C02Chain.v", "Gen/C02AnteChain.v", "Proofs/Auth.v"]
 
 
 def observe(R, n, seed=None):
@@ -34,7 +34,8 @@ def sig_of(case, clauses):
     # violation signature: failing clause(s) (they name the branch and the signer position) + state of the first signer
     if all(c.startswith("exact.") for c in clauses):
         return "+".join(sorted(clauses))      # what the signing scheme leaves unsigned does not depend on the account state
-    return "%s:%s" % ("+".join(sorted(clauses)), acct_class(case))
+    env = case["scenario"].get("env") or ""
+    return "%s:%s%s" % ("+".join(sorted(clauses)), acct_class(case), (":" + env) if env else "")
 
 
 def brief(case):
@@ -52,18 +53,21 @@ def report(R, cases, viol):
 
 def run(R):
     R.trusted += [
+        "translator harness/cmd/gen_c02ante (go/ast over app/ante/*.go: chain order of NewAnteHandler, classification of every return statement of every AnteHandle; anything outside its fragment is a gen error and breaks C02_whole_chain_continues); the ten cosmos-sdk v0.47.6 decorators are pinned by name as continuing",
         "crypto is NOT modelled: verify / recover / addr_of_pk / eth_sender are Section variables; every hypothesis about them is in the theorem statements (none for the main theorems)",
         "oracle tables of the differential run are computed by the harness with cosmos-sdk authsigning.VerifySignature, go-ethereum crypto.SigToPub / types.Sender and an independent EIP-712 digest (not via app/ante)",
         "baseapp runTx semantics (ante state is discarded when the ante handler fails or panics) is observed through DeliverTx, not proved",
     ]
     R.assume += [
-        "the ante chain is projected onto ValidateBasic, SetPubKey, SigGasConsume, SigVerification, IncrementSequence; the other decorators can only reject and are kept passing by the harness (fees in range, funded accounts)",
+        "the ante chain is projected onto ValidateBasic, SetPubKey, SigGasConsume, SigVerification, IncrementSequence; that the other decorators can only reject or continue is theorem C02_whole_chain_continues over the regenerated chain; the differential run crosses the matrix with the chain's mode switches (weak network, custody enabled on the signers, execution-fee table, token black/white-list switches); the weak-network message filter's verdict is computed by the harness from the documented rule",
         "addresses are 20 bytes (common.BytesToAddress crops longer ones); multisig = LegacyAminoPubKey over secp256k1 members with uniform member sign mode (its verification is the verify oracle; nested multisigs are not generated)",
         "message types: every registered sdk.Msg implementation that can be instantiated generically (string/address fields := signer; ValidateBasic passes; an honest DIRECT tx passes the ante handler) -- 89 of 109 on the current tree, at least one per module except evidence; the rest of the matrix uses bank MsgSend, gov MsgRegisterIdentityRecords, tokens MsgEthereumTx",
         "'exactly that transaction': t_id identifies body + auth-info bytes; EIP-712 / raw Ethereum signatures cover the message (resp. the raw tx) and the sequence only -- theorem C02_exact_refuted_*, listed findings exact.*",
         "the sign document is abstracted to (mode, chain id, account number, sequence, identity of body+auth-info bytes); the oracle table is the real graph on the documents that occur",
         "replay theorem: fewer than 2^64 accepted transactions between the two submissions (uint64 sequence wrap)",
     ]
+    # the ante chain as the code has it NOW: decorator order and the shape of every return of every custom AnteHandle
+    R.gen("gen_c02ante", "C02AnteChain.v")
     R.coq_files(FILES)
     R.coq_property()
     R.audit()
